@@ -6,7 +6,9 @@ import (
 	"fmt"
 	"github.com/fullstorydev/grpchan/httpgrpc"
 	"google.golang.org/protobuf/proto"
+	"io"
 	"math/rand"
+	"net/http"
 	"net/http/httptest"
 	"strings"
 
@@ -140,6 +142,31 @@ func checkC08(e *core.Env) {
 		}
 		nilInt := func(ctx context.Context, req interface{}, _ *grpc.UnaryServerInfo, _ grpc.UnaryHandler) (interface{}, error) {
 			return nil, nil
+		}
+		// ... whatever the configured error renderer does (the reply is handed to the channel's client side)
+		for _, rend := range []string{"default", "writes-nothing"} {
+			opts := []httpgrpc.ServerOption{httpgrpc.WithServerUnaryInterceptor(nilInt)}
+			if rend == "writes-nothing" {
+				opts = append(opts, httpgrpc.ErrorRenderer(func(context.Context, *status.Status, http.ResponseWriter) {}))
+			}
+			rsrv := httpgrpc.NewServer(opts...)
+			rsrv.RegisterService(&ScriptedDesc, &Service{})
+			hr := httptest.NewRequest("POST", Unary.Method(), bytes.NewReader(nil))
+			hr.Header.Set("Content-Type", httpgrpc.UnaryRpcContentType_V1)
+			rec := httptest.NewRecorder()
+			if pan := guard(func() { rsrv.ServeHTTP(rec, hr) }); pan != "" {
+				continue // a dropped connection: an error for the caller
+			}
+			resp := rec.Result()
+			rb, _ := io.ReadAll(resp.Body)
+			ch := &httpgrpc.Channel{BaseURL: mustURL("http://c08.test/"), Transport: rtFunc(func(rq *http.Request) (*http.Response, error) {
+				return &http.Response{StatusCode: resp.StatusCode, Status: resp.Status, Header: resp.Header.Clone(), Body: io.NopCloser(bytes.NewReader(rb)), Request: rq, ProtoMajor: 1, ProtoMinor: 1}, nil
+			})}
+			cerr := ch.Invoke(context.Background(), Unary.Method(), &tpb.Message{}, new(tpb.Message))
+			e.Eval("nil-unary-http|renderer|"+rend, true)
+			if cerr == nil {
+				e.Violate("http-direct/unary/nil-response-success/renderer-"+rend, fmt.Sprintf("the server side produced no response and no error (error renderer: %s); the reply is HTTP %d and the caller reports success", rend, resp.StatusCode), nil)
+			}
 		}
 		srv := httpgrpc.NewServer(httpgrpc.WithServerUnaryInterceptor(nilInt))
 		srv.RegisterService(&ScriptedDesc, &Service{})
